@@ -138,7 +138,10 @@ type variant struct {
 // in-flight variants: same hash, altered fields that the hash does not cover,
 // or call data in another encoding of the same arguments
 var variants = []variant{
-	{"changes-hash", func(r *simrt.Run, b *nom.AccountBlock) bool { b.ChangesHash[r.T.Choose(types.HashSize)] ^= 1; return true }},
+	{"changes-hash", func(r *simrt.Run, b *nom.AccountBlock) bool {
+		b.ChangesHash[r.T.Choose(types.HashSize)] ^= 1
+		return true
+	}},
 	{"changes-hash-zero", func(r *simrt.Run, b *nom.AccountBlock) bool {
 		if b.ChangesHash.IsZero() {
 			return false
